@@ -52,6 +52,8 @@ pub struct Counters {
     pub nu_svc_r_cross_checked: u64,
     pub nu_svc_zero_margin: u64,
     pub models_judged: u64,
+    pub layout_fits: u64,
+    pub layout_observations: u64,
     pub last_iters: (u64, u64),
     pub last_nsupport: u64,
 }
@@ -79,11 +81,15 @@ impl Counters {
         self.nu_svc_r_cross_checked += o.nu_svc_r_cross_checked;
         self.nu_svc_zero_margin += o.nu_svc_zero_margin;
         self.models_judged += o.models_judged;
+        self.layout_fits += o.layout_fits;
+        self.layout_observations += o.layout_observations;
     }
     pub fn as_pairs(&self) -> Vec<(&'static str, u64)> {
         vec![
             ("fits", self.fits),
             ("models_judged", self.models_judged),
+            ("layout_family_fits", self.layout_fits),
+            ("layout_family_predict_observations_compared", self.layout_observations),
             ("platt_calibration_errors_not_judged", self.platt_errors),
             ("calibrated_models_judged", self.calibrated_models),
             ("fits_shrinking_on", self.fits_shrinking_on),
